@@ -270,6 +270,12 @@ func syntaxHandle(raw []byte) map[string]interface{} {
 			return map[string]interface{}{"err": err.Error()}
 		}
 		return map[string]interface{}{"got": strings.ReplaceAll(got, " ", ""), "want": strings.Join(c.Full, "")}
+	case "parses":
+		// a statement form that the grammar allows: the parser must accept it (and say nothing)
+		if _, err := fileShape(c.S); err != nil {
+			return map[string]interface{}{"err": err.Error()}
+		}
+		return map[string]interface{}{"err": ""}
 	case "treectx":
 		// the same operator tree, minimally and fully parenthesised, in a statement/expression context
 		tmpl, ok := exprContexts[c.Tc]
